@@ -38,6 +38,9 @@ def run(ctx):
             ops.append(op(flags, frag, 1000, 1100, 1000))
             if frag == 0:
                 ops.append(op(flags, frag, 5000, 4000, 1000))
+            # an unacceptable packet type / fragment is rejected whatever the timestamps are (zero included)
+            ops.append(op(flags, frag, 0, 1100, 1000))
+            ops.append(op(flags, frag, 1000, 0, 1000))
     ctx.correspond(ops, nontrivial=nontriv, label="gate", canon_model=canon_model)
     # boundaries
     ops = []
